@@ -2,7 +2,10 @@ module fpsa
 
 go 1.22.2
 
-require golang.org/x/tools v0.29.0
+require (
+	github.com/iancoleman/strcase v0.3.0
+	golang.org/x/tools v0.29.0
+)
 
 require (
 	golang.org/x/mod v0.22.0 // indirect
